@@ -276,7 +276,8 @@ from the readers: records by field NAME, tuples by position, list elements, map 
 `Option` layers by null-ness.
 
 * a position is blamed where `cast` does not demand a value (`mustFail`: out of range, not a char, null into a
-  non-`Option` target, …; or no claim: the (target, column) pair is not supported) and no part of the value is to blame;
+  non-`Option` target, a (target, column) pair the readers do not offer, …; `cast` is without a claim only where field
+  names repeat, `Props.C02.cast_na_only`) and no part of the value is to blame;
 * a container position is blamed for its own structural reasons: a tuple longer than the struct, a non-`Option` target
   field without a column field of its name (or repeated names: by-name reading has no meaning), a key type a field name
   cannot be read into, a variant the enum does not have, a union slot without a variant;
